@@ -40,14 +40,21 @@ func BadParallel(a []int) int {
 	return i
 }
 
+// Go closures capture by reference: x is assigned after f captured it
 func BadClosure(x float64) float64 {
 	f := func(y float64) float64 { return y + x }
+	x = 2
 	return f(1)
 }
 
-func BadAppend(xs []float64) []float64 { return append(xs, 1) }
+// a sub-slice shares memory with xs: the write through w would be lost
+func BadAppend(xs []float64) []float64 {
+	w := xs[1:]
+	w[0] = 1
+	return xs
+}
 
-func BadSlice(xs []float64) []float64 { return xs[1:] }
+func BadSlice(xs []float64) []float64 { return xs[0:1:2] }
 
 func BadRecursion(n int) int {
 	if n <= 0 {
@@ -93,10 +100,25 @@ func BadWhileBreak(x float64) float64 {
 	return x
 }
 
-// one opaque interface method on two interface values
-func BadIfaceTwo(a, b Counter) int { return a.Count(1) + b.Count(2) }
+// an interface value chosen at run time: the opaque method would stand for two different values
+func BadIfaceTwo(a, b Counter, pick bool) int {
+	c := a
+	if pick {
+		c = b
+	}
+	return c.Count(1)
+}
 
 func BadAssert(v interface{}) float64 { return v.(float64) }
 
 // the opaque name cntf stands for Counter.Count (int -> int) and for math.Sqrt (float -> float)
 func BadOpaqueClash(c Counter, x float64) float64 { return math.Sqrt(x) + float64(c.Count(1)) }
+
+func BadClosureLoop(xs []float64) float64 {
+	s := 0.0
+	for _, x := range xs {
+		f := func(y float64) float64 { return y * 2 }
+		s += f(x)
+	}
+	return s
+}
